@@ -959,36 +959,14 @@ func (c *Ctx) ruleWrapKeepsHandle(rr *RuleRep) {
 			}
 			return isNilConst(other) || c.globalLoadName(other) == "io.EOF"
 		}
+		// every path from the entry to `at` takes the true edge of an identity test of the cause (however the outcome of the
+		// test travels to the branch: directly, through `||`, or through a flag an extracted predicate returned)
 		guarded := func(at ssa.Instruction) bool {
-			for _, b := range wr.Blocks {
+			_, reach := CanReach(wr, nil, func(in ssa.Instruction) bool { return in == at }, PathQ{BlockEdge: func(b *ssa.BasicBlock, k int) bool {
 				iff := blockIf(b)
-				if iff == nil || !DominatedByEdge(wr, at, b, 0, PathQ{}) {
-					continue
-				}
-				if identity(iff.Cond) {
-					return true
-				}
-				if phi, ok := iff.Cond.(*ssa.Phi); ok {
-					// a || b || …: each operand an identity test (the constant-true edges come from the tests that held)
-					all := len(phi.Edges) > 0
-					for i, e := range phi.Edges {
-						if kb, isK := constBool(e); isK {
-							pb := blockIf(phi.Block().Preds[i])
-							if !kb || pb == nil || !identity(pb.Cond) || phi.Block().Preds[i].Succs[0] != phi.Block() {
-								all = false
-							}
-							continue
-						}
-						if !identity(e) {
-							all = false
-						}
-					}
-					if all {
-						return true
-					}
-				}
-			}
-			return false
+				return iff != nil && k == 0 && identity(iff.Cond)
+			}})
+			return !reach
 		}
 		bad, has := false, false
 		for _, ret := range returnsOf(wr) {
